@@ -67,7 +67,18 @@ type Violation struct {
 	Msg  string `json:"msg"`
 	Idx  int    `json:"idx"`
 	Case any    `json:"case,omitempty"`
+	Mode int    `json:"proc_mode"` // what the process had shown the library before its first case (see ProcWarm)
+	From int    `json:"proc_from"` // first case of the process that observed it
 }
+
+// ProcWarm, when set, is called once per child process (and per replay) before the first case. mode 0 = cold start,
+// 1 = the library has seen live values of every alias type first, 2 = it has seen zero values / typed nil pointers of
+// every alias type first. Anything the library remembers per type for the life of a process is thereby met in both
+// orders somewhere in every run.
+var ProcWarm func(mode int)
+
+// ProcModeFor derives the mode of the child that starts at case `from`.
+func ProcModeFor(seed int64, from int) int { return int(Mix(uint64(seed), uint64(from)+0x51ed) % 3) }
 
 const maxKeptViolations = 40
 const maxSamples = 5
@@ -77,8 +88,11 @@ type Ctx struct {
 	Prop string
 	Tier string
 	Seed int64
-	Idx  int  // current case
-	Rng  *Rng // re-seeded per case
+	// ProcMode / ProcFrom: see ProcWarm
+	ProcMode int
+	ProcFrom int
+	Idx      int  // current case
+	Rng      *Rng // re-seeded per case
 	// Verbose is set in replay mode.
 	Verbose bool
 
@@ -148,11 +162,11 @@ func (c *Ctx) Violate(key, msg string, cas any) {
 	if _, ok := c.FirstByKey[key]; !ok {
 		c.FirstByKey[key] = msg
 		// always keep the first of each key
-		c.Viol = append(c.Viol, Violation{Key: key, Msg: msg, Idx: c.Idx, Case: cas})
+		c.Viol = append(c.Viol, Violation{Key: key, Msg: msg, Idx: c.Idx, Case: cas, Mode: c.ProcMode, From: c.ProcFrom})
 		return
 	}
 	if len(c.Viol) < maxKeptViolations {
-		c.Viol = append(c.Viol, Violation{Key: key, Msg: msg, Idx: c.Idx, Case: cas})
+		c.Viol = append(c.Viol, Violation{Key: key, Msg: msg, Idx: c.Idx, Case: cas, Mode: c.ProcMode, From: c.ProcFrom})
 	}
 }
 
